@@ -45,6 +45,7 @@ def check(model: Model, rep: Report, tier: str):
     r7(model, rep)
     r8(model, rep)
     r9(model, rep)
+    r10(model, rep)
 
 
 # ---------------------------------------------------------------------------------------------
@@ -608,3 +609,113 @@ def _alternatives(t: Term, cond: Term):
     if t[0] == "ite":
         return _alternatives(t[2], t_and(cond, t[1])) + _alternatives(t[3], t_and(cond, t_not(t[1])))
     return [(t, cond)]
+
+
+# ---------------------------------------------------------------------------------------------
+def r10(model: Model, rep: Report):
+    """The duration that enters the equations is the configured one (strategy -> registry plumbing)."""
+    rep.rule("C01.R10", "every non-composite operation reports duration == self.duration_strategy.get_variable_duration(task=self); Fixed -> its stored "
+                        "duration; Global -> its registry.get_registry_at(key=its key); Registry -> its registry at its key; the registries look the key up "
+                        "(GlobalDurationRegistry by key.value; DurationRegistry by key, set_registry_at stores under the same key); the temporary override "
+                        "answers temp_registry.get(key, ...)")
+    ico = model.cls("ICircuitOperation")
+    comp = model.cls("CircuitCompositeOperation")
+    n = 0
+    impls = set()
+    for K in model.subclasses(ico, concrete_only=True):
+        if K is comp or comp in K.mro():
+            continue
+        f = K.resolve("duration")
+        if f is None or "abstractmethod" in f.decorators:
+            raise AnalysisError(f"{K.name}: no duration")
+        n += 1
+        impls.add(f)
+        ev = Evaluator(model, inline_methods=False)
+        v = ev.value_of(f, self_cls=K)
+        s = sym(f.self_name)
+        ok = is_call_of(v, "get_variable_duration") and v[1][1][0] == "attr" and v[1][1][1] == s and v[1][1][2] in K.all_fields()
+        if ok:
+            a, kw = call_args(v)
+            ok = (list(a) + list(kw.values())) == [s]
+        rep.check(ok, "C01.R10", f"{K.name}.duration", f.loc, found=show(v), required="self.<strategy field>.get_variable_duration(task=self)",
+                  what="the operation's duration is not the one its duration strategy gives", detail="op-duration")
+    rep.floor("non-composite operation classes", n, 26)
+    rep.analysed["C01.R10 distinct duration implementations"] = len(impls)
+    # strategies -----------------------------------------------------------------------------
+    mod = "structure.registry_duration"
+    def value(cls_name, fn_name):
+        C = model.cls(cls_name, mod)
+        f = C.resolve(fn_name)
+        if f is None:
+            raise AnalysisError(f"{cls_name}.{fn_name} vanished")
+        opq = {x.qualname for x in model.all_functions() if x.name == "get_registry_at" and x is not f}
+        return C, f, Evaluator(model, inline_methods=True, opaque=opq).value_of(f, self_cls=C), sym(f.self_name)
+    C, f, v, s = value("FixedDurationStrategy", "get_variable_duration")
+    rep.check(v == ("attr", s, "duration") and "duration" in C.all_fields(), "C01.R10", "FixedDurationStrategy.get_variable_duration", f.loc, found=show(v), required="self.duration",
+              what="a fixed duration strategy does not answer its stored duration", detail="fixed")
+    C, f, v, s = value("GlobalDurationStrategy", "get_variable_duration")
+    want = ("call", ("attr", ("attr", s, "_registry"), "get_registry_at"), (), (("key", ("attr", s, "key")),))
+    got = v
+    if is_call_of(v, "get_registry_at"):
+        a, kw = call_args(v)
+        got = ("call", v[1], (), (("key", (list(a) + list(kw.values()))[0]),)) if len(list(a) + list(kw.values())) == 1 else v
+    rep.check(got == want and {"_registry", "key"} <= set(C.all_fields()), "C01.R10", "GlobalDurationStrategy.get_variable_duration", f.loc, found=show(v), required=show(want),
+              what="the global duration strategy does not look its own key up in its registry", detail="global")
+    C, f, v, s = value("RegistryDurationStrategy", "get_variable_duration")
+    want = ("call", ("attr", ("attr", s, "registry"), "get_registry_at"), (), (("key", ("attr", s, "registry_key")),))
+    got = v
+    if is_call_of(v, "get_registry_at"):
+        a, kw = call_args(v)
+        got = ("call", v[1], (), (("key", (list(a) + list(kw.values()))[0]),)) if len(list(a) + list(kw.values())) == 1 else v
+    rep.check(got == want, "C01.R10", "RegistryDurationStrategy.get_variable_duration", f.loc, found=show(v), required=show(want),
+              what="the registry duration strategy does not look its own key up in its registry", detail="registry")
+    # registries -----------------------------------------------------------------------------
+    C, f, v, s = value("GlobalDurationRegistry", "get_registry_at")
+    key = sym([p for p in f.param_names if p != f.self_name][0])
+    store = ("attr", s, "_global_registry")
+    ok = (is_call_of(v, "get") and v[1][1] == store and v[2][:1] == (("attr", key, "value"),)) or v == ("sub", store, ("attr", key, "value"))
+    rep.check(ok, "C01.R10", "GlobalDurationRegistry.get_registry_at", f.loc, found=show(v), required="self._global_registry.get(key.value, ...)",
+              what="the global registry does not answer the entry of the asked key", detail="global-lookup")
+    C, f, v, s = value("DurationRegistry", "get_registry_at")
+    key = sym([p for p in f.param_names if p != f.self_name][0])
+    ok = is_call_of(v, "get") and v[1][1][0] == "attr" and v[1][1][1] == s and v[2][:1] == (key,)
+    store_field = v[1][1][2] if ok else None
+    rep.check(ok, "C01.R10", "DurationRegistry.get_registry_at", f.loc, found=show(v), required="self.<store>.get(key, default)",
+              what="the duration registry does not answer the entry of the asked key", detail="registry-lookup")
+    g = C.resolve("set_registry_at")
+    ps = PathEnumerator(Evaluator(model, inline_methods=False)).function_paths(g, self_cls=C)
+    gk, gv = (sym(p) for p in [p for p in g.param_names if p != g.self_name][:2])
+    oks = []
+    for p in ps:
+        sts = [e for e in p.events if e.kind == "store"]
+        oks.append(any(_is_sub_store(e, ("attr", sym(g.self_name), store_field), gk, gv) for e in sts) and p.exit != "raise")
+    rep.check(bool(oks) and all(oks), "C01.R10", "DurationRegistry.set_registry_at", g.loc, found=[show(e.term) for p in ps for e in p.events if e.kind == "store"],
+              required=f"self.{store_field}[key] = value on every path", what="a configured duration is not stored under its key in the table the getter reads", detail="registry-store")
+    # temporary override ---------------------------------------------------------------------
+    ov = model.function("registry_duration", "temporary_override_get_registry_at")
+    inner = [n_ for n_ in ast.walk(ov.node) if isinstance(n_, ast.FunctionDef) and n_ is not ov.node]
+    param = ov.param_names[0]
+    installs = [n_ for n_ in ast.walk(ov.node) if isinstance(n_, ast.Assign) and isinstance(n_.targets[0], ast.Attribute)
+                and ast.unparse(n_.targets[0]) == "GlobalDurationRegistry.get_registry_at" and isinstance(n_.value, ast.Name) and inner and n_.value.id == inner[0].name]
+    ok = len(inner) == 1 and len(installs) == 1
+    found = None
+    if ok:
+        fn = inner[0]
+        args = [a.arg for a in fn.args.args]
+        rets = [n_ for n_ in ast.walk(fn) if isinstance(n_, ast.Return)]
+        stmts = [n_ for n_ in fn.body if not (isinstance(n_, ast.Expr) and isinstance(n_.value, ast.Constant))]
+        ok = len(args) == 2 and len(rets) == 1 and len(stmts) == 1 and rets[0].value is not None
+        if ok:
+            r = rets[0].value
+            found = ast.unparse(r)
+            ok = (isinstance(r, ast.Call) and isinstance(r.func, ast.Attribute) and r.func.attr == "get" and isinstance(r.func.value, ast.Name) and r.func.value.id == param
+                  and r.args and isinstance(r.args[0], ast.Name) and r.args[0].id == args[1]) or \
+                 (isinstance(r, ast.Subscript) and isinstance(r.value, ast.Name) and r.value.id == param and isinstance(r.slice, ast.Name) and r.slice.id == args[1])
+    rep.check(ok, "C01.R10", "temporary_override_get_registry_at[lookup]", ov.loc, found=found or f"{len(inner)} inner functions, {len(installs)} installs",
+              required=f"GlobalDurationRegistry.get_registry_at := (self, key) -> {param}.get(key, ...)", what="inside the override the duration of a key is not the overriding table's entry for that key",
+              detail="override-lookup")
+
+
+def _is_sub_store(e, container: Term, key: Term, value: Term) -> bool:
+    t = e.term
+    return t is not None and t[0] == "store" and t[1] == container and t[2] == ("index", key) and t[3] == value
